@@ -109,7 +109,9 @@ def run(ctx):
                 "their original distance in non-decreasing order <= max_dist / stop condition; hook-free fits compared "
                 "exactly (merges, clusters, linkage, condensed vector) with the Lean model; repeated fits on one object; "
                 "HierarchicalTree linkage well-formedness; LinkageTree vs scipy.linkage on the same condensed "
-                "distances; plus real series through dtw.distance_matrix / distance_matrix_fast; non-trivial = n >= 3")
+                "distances; plus real series through dtw.distance_matrix / distance_matrix_fast, including histories in which "
+                "the same model object (all three variants) was first fitted on a different collection of the same size; "
+                "non-trivial = n >= 3")
     rng = ctx.rng
     runs = 4000 if ctx.thorough else 250
     nmax = 12 if ctx.thorough else 8
@@ -314,6 +316,36 @@ def run(ctx):
             tree.fit(series)
             check_tree(res, info, n, list(tree.linkage), True)
             res.hit("real_" + fname)
+            # histories over DIFFERENT collections of the same size: a model object that was fitted on other data
+            # answers like a fresh object
+            other = [np.array([float(rng.randint(-3, 3)) for _ in range(len(x))]) for x in series]
+            makers = [("Hierarchical", lambda: Hierarchical(fn, dict(opts), max_dist=max_dist, show_progress=False),
+                       lambda o, r: {int(k): sorted(map(int, v)) for k, v in r.items()}),
+                      ("HierarchicalTree", lambda: HierarchicalTree(dists_fun=fn, dists_options=dict(opts),
+                                                                    show_progress=False),
+                       lambda o, r: [[int(a), int(b), float(d), int(c)] for a, b, d, c in o.linkage])]
+            for method in ("complete", "single", "average"):
+                makers.append(("LinkageTree(%s)" % method, (lambda mt: (lambda: LinkageTree(fn, dict(opts), method=mt)))(method),
+                               lambda o, r: np.asarray(o.linkage).tolist()))
+            for name, make, view in makers:
+                try:
+                    used = make()
+                    used.fit(other)
+                    got = view(used, used.fit(series))
+                    fresh_o = make()
+                    want_r = view(fresh_o, fresh_o.fit(series))
+                except BaseException as ex:
+                    if isinstance(ex, (KeyboardInterrupt, SystemExit)):
+                        raise
+                    res.violations.append(dict(info, clause="%s: fit after a fit on other data raised" % name,
+                                               got=type(ex).__name__ + ":" + str(ex)[:100]))
+                    continue
+                res.hit("cross_data_history")
+                if got != want_r:
+                    res.violations.append(dict(info, clause="%s: a model object fitted earlier on a different collection "
+                                                            "of the same size gives the clustering of the collection it is "
+                                                            "fitted on now" % name, other=[x.tolist() for x in other],
+                                               got=got, fresh=want_r))
         if len(results) == 2 and np.array_equal(results["distance_matrix"][1], results["distance_matrix_fast"][1]) and \
                 results["distance_matrix"][0] != results["distance_matrix_fast"][0]:
             res.violations.append({"clause": "Python and C distance-matrix functions give the same clustering",
